@@ -99,7 +99,8 @@ int main(int argc, char** argv) {
   uint64_t seed = strtoull(argv[2], 0, 10);
   std::string policy = argv[6];
   int rounds = atoi(argv[7]);
-  galois::setActiveThreads(2);
+  // threads per host: 1..4, chosen from the seed (the same on every host)
+  unsigned nthreads = galois::setActiveThreads(1 + (unsigned)(seed % 4));
   std::unique_ptr<Graph> g = partition(policy, argv[4], argv[5]);
   G = g.get();
   // ---- C19: the local graph of this host
@@ -137,7 +138,7 @@ int main(int argc, char** argv) {
     Field f = (Field)pr.below(3);
     bool useBitset = pr.below(4) != 0;
     DataCommMode mode = modes[pr.below(5)];
-    int density = (int)pr.below(4);            // 0: nothing written, 1: sparse, 2: half, 3: everything eligible
+    int density = (int)pr.below(5);            // 0: nothing written, 1: sparse, 2: half, 3: everything eligible, 4: all but one or two
     enforcedDataMode = mode;
     // initial state of the round: masters hold m0, mirrors hold m0 (min / max: the last broadcast value) or the identity (add)
     for (uint32_t l = 0; l < G->size(); ++l) {
@@ -145,7 +146,7 @@ int main(int argc, char** argv) {
       fld(G->getData(l), f) = (f == F_ADD && !G->isOwned(gid)) ? 0u : m0(f, gid, round);
     }
     bits(f).reset();
-    out->line(Rec().str("ev", "round").i("h", me).i("round", round).i("w", w).i("r", r).i("f", (int)f).i("bitset", useBitset ? 1 : 0).i("mode", (int)mode).i("density", density));
+    out->line(Rec().str("ev", "round").i("h", me).i("round", round).i("w", w).i("r", r).i("f", (int)f).i("bitset", useBitset ? 1 : 0).i("mode", (int)mode).i("density", density).i("threads", nthreads));
     // the operator: contributions at proxies eligible for the write location (in terms of the stored local edges).
     // Add fields carry deltas: half of their rounds consist of two write+sync steps without re-initialisation, the second
     // one writing only at masters and at mirrors the first broadcast did not refresh -- a mirror that was not reset after
@@ -172,6 +173,7 @@ int main(int argc, char** argv) {
         if (!eligible || density == 0) continue;
         if (density == 1 && wr.below(8) != 0) continue;
         if (density == 2 && wr.below(2) != 0) continue;
+        if (density == 4 && wr.below(6) == 0) continue;
         uint32_t c = f == F_ADD ? 1 + (uint32_t)wr.below(9) : 900 + (uint32_t)wr.below(700);
         auto& x = fld(G->getData(l), f);
         if (f == F_MIN) galois::atomicMin(x, c); else if (f == F_ADD) galois::atomicAdd(x, c); else galois::atomicMax(x, c);
